@@ -26,7 +26,8 @@ RULE = ("part A: one case = one history over the 29-letter alphabet {add(i,p), r
         "(and all-equal) x {sequential add_archive, from_archives_parallel, add_archives_parallel after a sequential prefix} under seeded delays, and 48 tied single-name archives "
         "loaded in parallel. part B: one case = one generated PTCH patch driven through PatchFile::parse + apply_patch with every header field altered over boundary values, every "
         "16th (quick) / every (thorough) payload byte altered, bsdiff40 header/control fields at boundary values, truncations and altered base files; or one PatchChain over archives "
-        "written by the reference MPQ writer whose winning entry is a PATCH_FILE (1-3 patches deep, three storage layouts, well-formed and corrupted variants). "
+        "written by the reference MPQ writer whose winning entry is a PATCH_FILE (1-3 patches deep, three storage layouts, well-formed and corrupted variants: PTCH-level corruption of the stored patch file, and container-level damage = an intact PTCH file whose "
+        "compressed stream in the archive is flipped / zeroed / truncated / has a bad checksum / is announced under another codec, so that the entry cannot be unpacked). "
         "distinct = distinct (history op-kind sequence) / (api, order, priorities) / (patch type, seek trait, size classes) / (chain depth, types, layout, variant) classes executed.")
 ASSUME = ["trusted base: the PTCH/BSD0/RLE encoder and the independent RLE decoder + bsdiff40 apply in lib/props/c08.py (every generated patch is decoded and applied by the "
           "reference before use; the container layout is the one the repository's own hand-made test patches use: PTCH.patch_data_size = size of the decompressed bsdiff blob, "
@@ -35,6 +36,8 @@ ASSUME = ["trusted base: the PTCH/BSD0/RLE encoder and the independent RLE decod
           "an archive without a (listfile) cannot contribute names to a chain by design and is outside the workload; adding an archive that is already in the chain is outside the workload (skipped)",
           "corrupted patch: Ok(bytes) is accepted iff MD5(bytes) equals the md5_after stored at offset 40 of the winning patch as it is on disk; Err is always accepted; a panic or a "
           "single heap request >= 256 MiB (requests >= 1 GiB are refused by the monitor, which aborts the worker and is attributed to the open case) is a violation",
+          "container-level damage (the winning or a lower PATCH_FILE entry cannot be unpacked from its archive): same oracle, with md5_after taken from the intact PTCH file that was stored; only "
+          "data-bearing bytes of the entry are damaged (TPatchInfo, sector offset table and block table are left consistent: structural fields of the container belong to C05)",
           "well-formed patch (plain stack: base below, patches above): Err is a violation (design reading: the error clause of the statement is for corrupted input)",
           "hook: verif_hooks::trace_start/trace_take record 'open' events inside from_archives_parallel/add_archives_parallel; a non-zero delay seed injects 0-200 us sleeps"]
 
@@ -411,21 +414,52 @@ def tpatch_info(ptch):
     return struct.pack("<III", 28, 0x80000000, len(ptch)) + md5(ptch)
 
 
-def patch_entry(name, ptch, fsize, layout, shift):
+CONTAINER_DAMAGE = ["stream-flip", "stream-zeroed", "stream-truncated", "stream-checksum", "method-byte"]
+
+
+def damage_unit(unit, kind, rng):
+    """One stored unit (mask byte + zlib stream) of an intact PTCH file, damaged so that the *container* can no longer
+    unpack it. Only data-bearing bytes are touched (the structural fields of the entry - TPatchInfo, sector offset
+    table, block table - are the business of the parser-totality property, not of this one)."""
+    m, z = unit[0], bytearray(unit[1:])
+    if kind == "stream-flip":
+        q = len(z) // 2 if rng is None else rng.randrange(2, max(3, len(z) - 4))
+        z[q] ^= 0x55
+    elif kind == "stream-zeroed":
+        z = bytearray(len(z))
+    elif kind == "stream-truncated":
+        z = z[:max(1, len(z) // 2)]
+    elif kind == "stream-checksum":
+        z[-1] ^= 0x01                       # the Adler-32 trailer of the zlib stream
+    elif kind == "method-byte":
+        m = 0x10                            # a zlib stream announced as bzip2
+    return bytes([m]) + bytes(z)
+
+
+def patch_entry(name, ptch, fsize, layout, shift, damage=None, rng=None):
     """A PATCH_FILE block: TPatchInfo (28 bytes, never compressed) followed by the PTCH file, stored as a single raw
-    unit, a single zlib unit, or zlib sectors behind a sector offset table. Falls back to raw when zlib does not shrink."""
+    unit, a single zlib unit, or zlib sectors behind a sector offset table. Falls back to raw when zlib does not shrink.
+    damage (one of CONTAINER_DAMAGE): the compressed unit (for sectors: one of them, chosen by rng) is damaged after
+    compression; the sector offset table stays consistent with the stored bytes. Not applicable to the raw layout
+    (returned layout "raw": the caller skips the variant)."""
     info = tpatch_info(ptch)
     used = "raw"
     stored, method, single = info + ptch, 0, True
     if layout == "zlib-unit":
         z = zlib.compress(ptch, 6)
         if 1 + len(z) < len(ptch):
-            stored, method, used = info + b"\x02" + z, 0x02, "zlib-unit"
+            unit = b"\x02" + z
+            if damage:
+                unit = damage_unit(unit, damage, rng)
+            stored, method, used = info + unit, 0x02, "zlib-unit"
     elif layout == "zlib-sectors":
         ss = 512 << shift
         secs = [ptch[i:i + ss] for i in range(0, len(ptch), ss)]
         zs = [b"\x02" + zlib.compress(s, 6) for s in secs]
         if secs and all(len(z) < len(s) for z, s in zip(zs, secs)):
+            if damage:
+                k = len(zs) - 1 if damage == "stream-truncated" or rng is None else rng.randrange(len(zs))
+                zs[k] = damage_unit(zs[k], damage, rng)
             offs = [4 * (len(secs) + 1)]
             for z in zs:
                 offs.append(offs[-1] + len(z))
@@ -524,8 +558,10 @@ def gen_group(args):
         meth = [0, 0x02][(g + k) % 2]
         return refmpq.RefFile(nm, data, method=meth, single_unit=((g + k) % 3 == 0) and len(data) > 0)
 
-    def patch_arc(fname, lv, ptch_bytes, extra_files=()):
-        f, used = patch_entry(name, ptch_bytes, len(versions[lv + 1]), layout, shift)
+    def patch_arc(fname, lv, ptch_bytes, extra_files=(), layout_=None, damage=None):
+        f, used = patch_entry(name, ptch_bytes, len(versions[lv + 1]), layout_ or layout, shift, damage=damage, rng=rng)
+        if damage and used == "raw":
+            return None, used
         return write(fname, [f] + list(extra_files)), used
 
     base_path = write("base.mpq", [regular(name, versions[0]), regular(other, b"base " + other.encode()), regular(f"Only\\base{g}.dat", b"only-base")])
@@ -611,6 +647,22 @@ def gen_group(args):
             where = "top" if lv == depth - 1 else "lower"
             chain_case(f"corrupt-{where}|{region}", arcs2, "err-or-declared", None, f"{levels[lv]['type']}|{region}", top_stored,
                        extra={"corrupt_level": lv, "corrupt_where": where, "region": region})
+    # container-level damage of one level: the PTCH file itself is intact, but the archive entry that stores it cannot be
+    # unpacked (damaged / truncated / mis-announced compressed stream). The winning entry is still that patch, so the
+    # chain owes an error (or, vacuously, bytes with the digest the intact patch declares) - not an older version.
+    clayout = layout if layout != "raw" else ["zlib-unit", "zlib-sectors"][g % 2]
+    for lv in sorted(set([depth - 1, 0])):
+        where = "top" if lv == depth - 1 else "lower"
+        kinds = CONTAINER_DAMAGE if where == "top" else [CONTAINER_DAMAGE[(g + lv) % len(CONTAINER_DAMAGE)]]
+        for kind in kinds:
+            vi += 1
+            pth, used = patch_arc(f"p{lv + 1}-k{vi}.mpq", lv, levels[lv]["ptch"], layout_=clayout, damage=kind)
+            if pth is None:
+                continue                    # this PTCH file does not shrink under zlib: it is stored raw, no container stream to damage
+            arcs2 = [dict(a) for a in arcs]
+            arcs2[lv + 1]["path"] = pth
+            chain_case(f"container-{where}|{used}|{kind}", arcs2, "err-or-declared", None, f"{levels[lv]['type']}|container.{kind}", top,
+                       extra={"corrupt_level": lv, "corrupt_where": where, "region": "container." + kind, "container_damage": kind, "container_layout": used})
     return cases
 
 
@@ -628,6 +680,8 @@ def generate_corpus(tier, seed, outdir):
                     json.dump(c, fh)
                 idx += 1
                 cnt[c["kind"] + "_cases"] += 1
+                if c["kind"] == "chain" and c.get("container_damage"):
+                    cnt["chain_cases_container_damage"] = cnt.get("chain_cases_container_damage", 0) + 1
                 if c["kind"] == "direct":
                     cnt["blob_variants_generated"] += len(c["blobs"])
                     cnt["patches_selfchecked_by_reference"] += 1
